@@ -790,8 +790,17 @@ def rule_p5(ctx):
                 if st["k"] == "assign" and st["rv"]["k"] == "use" and st["rv"]["op"].get("place", {}).get("l") == dest and st["place"]["p"]:
                     if mir.proj_names(st["place"]["p"])[0] == f:
                         stored = True
-        if stored:
-            res.ok({"function": MUX_UNCACHED, "field": f, "verdict": "result.%s := push_mux(c, t.%s, f.%s)" % (f, f, f)})
+        via = {m[3] for m in good}
+        for lp in mb.loops():
+            if lp["body"] & via:
+                via.add(lp["header"])
+        w = mb.must_pass(via)
+        if w:
+            res.bad(Finding("P5", MUX_UNCACHED, "merge of %s skipped on a path" % f,
+                            "a path through mux_uncached_panic returns without selecting %s by the condition" % f,
+                            mb.term(w[-1])["sp"], witness=["bb%d" % x for x in w]))
+        elif stored:
+            res.ok({"function": MUX_UNCACHED, "field": f, "verdict": "result.%s := push_mux(c, t.%s, f.%s) on every path" % (f, f, f)})
         else:
             res.bad(Finding("P5", MUX_UNCACHED, "store of merged %s" % f, "the merged %s is not stored in result.%s" % (f, f), t["sp"]))
     # (iii) remove_unused_gates: every field is a liveness root and is renumbered
